@@ -68,6 +68,35 @@ Proof.
   - right. exists y. split; [exact Hy|]. apply bars_mono_st. exact Hb.
 Qed.
 
+(* every id a barrier is inserted before was put on the pending list by some op of the module *)
+Lemma walk_invariant all l : forall pend bars,
+  (forall b, In b pend -> exists x, In x all /\ In b (adds all x)) ->
+  (forall b, In b bars -> exists x, In x all /\ In b (adds all x)) ->
+  (forall x, In x l -> In x all) ->
+  forall b, In b (snd (walk_from all (pend, bars) l)) -> exists x, In x all /\ In b (adds all x).
+Proof.
+  induction l as [|y r IH]; intros pend bars Hp Hb Hl b Hin; [apply Hb; exact Hin|].
+  rewrite walk_from_cons in Hin. unfold wstep in Hin.
+  eapply IH; [| | intros x Hx; apply Hl; right; exact Hx | exact Hin].
+  - intros b' Hb'. apply in_app_or in Hb' as [Hb'|Hb'].
+    + destruct (is_sync y); [destruct Hb'|]. destruct (memb (oi_id y) pend); [destruct Hb' | apply Hp; exact Hb'].
+    + exists y. split; [apply Hl; left; reflexivity | exact Hb'].
+  - intros b' Hb'. destruct (memb (oi_id y) pend) eqn:E; [|apply Hb; exact Hb'].
+    destruct Hb' as [<-|Hb']; [apply Hp; apply memb_true; exact E | apply Hb; exact Hb'].
+Qed.
+
+Lemma barriers_from_adds flat b : In b (barriers flat) -> exists x, In x flat /\ In b (adds flat x).
+Proof.
+  unfold barriers. apply walk_invariant; [intros ? [] | intros ? [] | intros x Hx; exact Hx].
+Qed.
+
+Lemma inert_not_barrier flat y : In y flat -> inert flat y = true -> ~ In (oi_id y) (barriers flat).
+Proof.
+  intros _ Hi Hb. apply barriers_from_adds in Hb as [x [Hx Hadd]].
+  unfold inert in Hi. apply andb_true_iff in Hi as [_ Hi]. rewrite forallb_forall in Hi.
+  specialize (Hi x Hx). apply negb_true_iff in Hi. apply memb_false in Hi. contradiction.
+Qed.
+
 (* what processing x contributes *)
 Lemma must_sync_adds flat x u : In u flat -> must_sync x u = true -> In (oi_id u) (adds flat x).
 Proof.
@@ -139,39 +168,45 @@ Proof.
 Qed.
 
 (* T2 — same-level class: x and the op t that must be preceded by a barrier lie in one block and
-   everything between them is a direct child of that block (a straight-line segment).  Then the
-   pass leaves, between x and t, a straight-line segment of the same block that contains a
-   barrier: the only path from x to t passes it. *)
+   everything between them is a direct child of that block or inert (inside the body of a
+   linalg.generic / streaming region): a straight-line segment.  Then what the pass leaves between
+   x and t is that same segment plus barriers, and it contains a barrier of the block: the only
+   path from x to t passes it. *)
 Theorem barrier_on_straight_segment : forall flat l1 x l2 t l3,
   flat = l1 ++ x :: l2 ++ t :: l3 ->
   In (oi_id t) (adds flat x) ->
-  same_block_segment (oi_parent x) (l2 ++ [t]) = true ->
+  seg_ok flat (oi_parent x) (l2 ++ [t]) = true ->
   let seg := out_between (barriers flat) l2 t in
   (exists pre post, run_pass flat = pre ++ x :: seg ++ t :: post) /\
-  same_block_segment (oi_parent x) seg = true /\
+  (forall z, In z seg -> In z l2 \/ is_sync z = true) /\
   (exists s, In s seg /\ is_sync s = true /\ oi_parent s = oi_parent x).
 Proof.
   intros flat l1 x l2 t l3 E Ht Hseg seg. split; [|split].
   - eexists. eexists. apply run_pass_split. exact E.
-  - unfold seg, out_between, same_block_segment. rewrite forallb_app. apply andb_true_iff. split.
-    + apply same_block_insert. unfold same_block_segment in Hseg. rewrite forallb_app in Hseg.
-      apply andb_true_iff in Hseg. tauto.
-    + unfold same_block_segment in Hseg. rewrite forallb_app in Hseg. apply andb_true_iff in Hseg as [_ Hs].
-      simpl in Hs. destruct (memb (oi_id t) (barriers flat)); [|reflexivity]. simpl. exact Hs.
-  - assert (Hpar : forall y, In y (l2 ++ [t]) -> oi_parent y = oi_parent x).
-    { intros y Hy. unfold same_block_segment in Hseg. rewrite forallb_forall in Hseg.
-      apply Z.eqb_eq. apply Hseg. exact Hy. }
+  - intros z Hz. unfold seg, out_between in Hz. apply in_app_or in Hz as [Hz|Hz].
+    + unfold insert_syncs in Hz. apply in_flat_map in Hz as [y [Hy Hzy]].
+      destruct (memb (oi_id y) (barriers flat)); simpl in Hzy.
+      * destruct Hzy as [<-|[<-|[]]]; [right; reflexivity | left; exact Hy].
+      * destruct Hzy as [<-|[]]. left. exact Hy.
+    + destruct (memb (oi_id t) (barriers flat)); [|destruct Hz]. destruct Hz as [<-|[]]. right. reflexivity.
+  - assert (Hin : forall y, In y (l2 ++ [t]) -> In y flat).
+    { intros y Hy. rewrite E. apply in_or_app. right. right.
+      apply in_app_or in Hy as [Hy|[<-|[]]]; apply in_or_app; [left; exact Hy | right; left; reflexivity]. }
+    assert (Hpar : forall y, In y (l2 ++ [t]) -> inert flat y = false -> oi_parent y = oi_parent x).
+    { intros y Hy Hi. unfold seg_ok in Hseg. rewrite forallb_forall in Hseg. specialize (Hseg y Hy).
+      rewrite Hi, orb_false_r in Hseg. apply Z.eqb_eq. exact Hseg. }
     destruct (barrier_between_flat flat l1 x l2 t l3 E Ht) as [[y [Hy Hs]]|[y [Hy Hb]]].
     + exists y. split; [|split; [exact Hs|]].
       * unfold seg, out_between. apply in_or_app. left. apply in_insert_syncs_orig. exact Hy.
-      * apply Hpar. apply in_or_app. left. exact Hy.
+      * apply Hpar; [apply in_or_app; left; exact Hy|]. unfold inert. rewrite Hs. reflexivity.
     + exists (sync_before y). split; [|split; [reflexivity|]].
       * unfold seg, out_between. apply in_app_or in Hy as [Hy|[Ey|[]]].
         { apply in_or_app. left. apply in_insert_syncs_new; [exact Hy | apply memb_true; exact Hb]. }
         { subst y. apply in_or_app. right.
           replace (memb (oi_id t) (barriers flat)) with true by (symmetry; apply memb_true; exact Hb).
           left. reflexivity. }
-      * simpl. apply Hpar. exact Hy.
+      * simpl. apply Hpar; [exact Hy|]. destruct (inert flat y) eqn:Ei; [|reflexivity].
+        exfalso. apply (inert_not_barrier flat y (Hin y Hy) Ei Hb).
 Qed.
 
 (* C13 (partial: SameLevel class) — forward direction: x on one core, u later in the same
@@ -179,10 +214,10 @@ Qed.
 Theorem barrier_between_ssa_deps_partial : forall flat l1 x l2 u l3,
   flat = l1 ++ x :: l2 ++ u :: l3 ->
   must_sync x u = true ->
-  same_block_segment (oi_parent x) (l2 ++ [u]) = true ->
+  seg_ok flat (oi_parent x) (l2 ++ [u]) = true ->
   let seg := out_between (barriers flat) l2 u in
   (exists pre post, run_pass flat = pre ++ x :: seg ++ u :: post) /\
-  same_block_segment (oi_parent x) seg = true /\
+  (forall z, In z seg -> In z l2 \/ is_sync z = true) /\
   (exists s, In s seg /\ is_sync s = true /\ oi_parent s = oi_parent x).
 Proof.
   intros flat l1 x l2 u l3 E Hm Hseg. apply (barrier_on_straight_segment flat l1 x l2 u l3 E); [|exact Hseg].
@@ -196,10 +231,10 @@ Theorem barrier_on_backedge_partial : forall flat l1 x l2 yld l3 u,
   flat = l1 ++ x :: l2 ++ yld :: l3 ->
   In u flat -> must_sync x u = true -> same_parent_for x u = true ->
   oi_id yld = oi_pyield x ->
-  same_block_segment (oi_parent x) (l2 ++ [yld]) = true ->
+  seg_ok flat (oi_parent x) (l2 ++ [yld]) = true ->
   let seg := out_between (barriers flat) l2 yld in
   (exists pre post, run_pass flat = pre ++ x :: seg ++ yld :: post) /\
-  same_block_segment (oi_parent x) seg = true /\
+  (forall z, In z seg -> In z l2 \/ is_sync z = true) /\
   (exists s, In s seg /\ is_sync s = true /\ oi_parent s = oi_parent x).
 Proof.
   intros flat l1 x l2 yld l3 u E Hu Hm Hp Hy Hseg.
@@ -211,7 +246,7 @@ Qed.
 Theorem barrier_before_dealloc_partial : forall flat l1 x l2 d l3,
   flat = l1 ++ x :: l2 ++ d :: l3 ->
   is_dealloc d = true -> shares x d = true ->
-  same_block_segment (oi_parent x) (l2 ++ [d]) = true ->
+  seg_ok flat (oi_parent x) (l2 ++ [d]) = true ->
   exists s, In s (out_between (barriers flat) l2 d) /\ is_sync s = true /\ oi_parent s = oi_parent x.
 Proof.
   intros flat l1 x l2 d l3 E Hd Hs Hseg.
